@@ -42,7 +42,7 @@ enum vh_counter {
 	VC_CANCEL_BEFORE_PROCESS, VC_CANCEL_AFTER_PROCESS, VC_UNDO_WHILE_CANCELLED, VC_UNDO_REQUEUE, VC_EXTRACT_CANCELLED_UNPROCESSED, VC_EXTRACT_CANCELLED_REQUEUED,
 	VC_GVT_ROUNDS, VC_FOSSIL, VC_FOSSIL_ENTRIES, VC_COMMITTED_CHECKED, VC_COMMIT_BEYOND_REF, VC_RB_DIGEST_CHECKED, VC_RB_DIGEST_SKIPPED,
 	VC_RB_AFTER_FOSSIL, VC_RB_COAST0, VC_RB_COAST1, VC_RB_COAST_MANY, VC_RB_TO_ZERO, VC_CAS_RETRY, VC_SWAP_NONEMPTY, VC_FP_DELAYS,
-	VC_EXTRACT, VC_MSG_ALLOC, VC_MSG_FREE, VC_QUEUE_LEFT, VC_VOTES, VC_GVT_INITIATED, VC_INSERT_BETWEEN_PEEKS, VC_FINI_COMMITTED, VC_MUTED_SENDS,
+	VC_EXTRACT, VC_MSG_ALLOC, VC_MSG_FREE, VC_QUEUE_LEFT, VC_VOTES, VC_TERM_CHECKS, VC_GVT_INITIATED, VC_INSERT_BETWEEN_PEEKS, VC_FINI_COMMITTED, VC_MUTED_SENDS,
 	VC_ARENA_AFTER_CKPT, VC_DEPTH_MAX, VC_COAST_MAX, VC_COUNT
 };
 extern const char *vh_counter_name[VC_COUNT];
